@@ -27,9 +27,9 @@ def gen_case(rng, wd, job_exe):
     se = rng.choice([None, "F1", "F2"]) if so else rng.choice([None, "F2"])
     c["ofile"] = os.path.join(wd, "out.txt") if so else None
     c["efile"] = None if se is None else (c["ofile"] if se == "F1" else os.path.join(wd, "err.txt"))
-    if so and se == "F2" and rng.random() < 0.4:
+    if so and se == "F2" and rng.random() < 0.6:
         # two files whose names begin alike: one is the other plus a suffix
-        if rng.random() < 0.7:
+        if rng.random() < 0.8:
             c["efile"] = c["ofile"] + rng.choice([".err", "2", "~", ".1"])
         else:
             c["efile"] = os.path.join(wd, "out")
